@@ -820,6 +820,9 @@ func (o *c02Oracle) AfterAdmin(c *tableCtx, op *Op, pan any, applied bool) *Viol
 
 func (o *c02Oracle) OnReq(c *tableCtx, op *Op, ob *Obs) *Violation {
 	q := op.Req
+	if ob.Panic == "nontermination" {
+		return &Violation{Prop: "C02", Oracle: "terminates", Sig: "non-termination", Detail: fmt.Sprintf("patterns %v | %s executed more than %d statements without answering", c.m.Order, q, requestBudget)}
+	}
 	if ob.Panic != "" || ob.Zero || q.Path == "" || q.Path == "*" {
 		return nil
 	}
